@@ -41,7 +41,7 @@ PROPS = {
     "C16": dict(level="fault_enumeration", quick_checks=1500, thorough_checks=10000, enum=True),
     "C17": dict(quick_checks=1500, thorough_checks=10000),
     "C18": dict(quick_checks=3000, thorough_checks=20000),
-    "C19": dict(quick_checks=40, quick_shards=4, thorough_checks=400, thorough_shards=8, race=True, hang_s=60),
+    "C19": dict(quick_checks=300, quick_shards=4, thorough_checks=3000, thorough_shards=8, thorough_rounds=10, race=True, hang_s=60),
     "C20": dict(quick_checks=2500, thorough_checks=15000),
 }
 
